@@ -310,13 +310,17 @@ def main(argv):
     open_f, fixed_f = load_known(pid)
     os.makedirs(os.path.join(VERIF, "evidence", "replay"), exist_ok=True)
     new_violations, known_hits, unreproduced = [], {}, []
+    cross_failed = []
     confirmed_kinds = {(v["name"].split("[")[0], v.get("known")) for i, (key, v) in enumerate(viols)
                        if (replays.get(i) or {}).get("reproduced")}
     unconfirmed = 0
     for i, (key, v) in enumerate(viols):
         rep = replays.get(i)
         if v.get("cross") and not (rep or {}).get("reproduced"):
-            continue                         # cross-check passed (or could not run: reported below)
+            if rep is None or rep.get("reproduced") is None:
+                # a cross-check that did not reach a verdict must not look like one that passed
+                cross_failed.append((v["name"], (rep or {}).get("detail", "no result")))
+            continue                         # cross-check passed
         if rep is None or not rep.get("reproduced"):
             if (v["name"].split("[")[0], v.get("known")) in confirmed_kinds:
                 # another counterexample to the same obligation reproduced on the real build; this model sits on a
@@ -373,6 +377,9 @@ def main(argv):
         harness_error = True
         print(f"harness-error: counterexample does not reproduce on the real build: config={key} obligation={v['name']} "
               f"case={json.dumps(v.get('case'), default=str)[:400]} real={json.dumps(rep, default=str)[:300]}")
+    for nm, det in cross_failed:
+        harness_error = True
+        print(f"harness-error: {nm} did not reach a verdict: {str(det)[:300]}")
     for r in errors:
         print(f"harness-error: config {r['key']}: {r['error'][-1200:]}")
     for k in vacuous:
